@@ -181,7 +181,7 @@ def run(m, chk):
         "on every return site the returned curve depends on both operands, and on the weights of an operand unless the path established `weights is None` (DEP-MAY). "
         "Pointwise equality of the values and the correctness of the combined knot vector are not decided."
     )
-    chk.decides = ["SWAP-SYMMETRIC (the product knot vector treats both operands alike)", "DEHOMOG-PAIR (points divided by a list of weights are stored with exactly those weights)", "RESULT-HOMOG (every curve an operator returns is of degree 0 in the weights of each operand: no numerator / denominator factor missing or doubled)", "AFFINE-MAP (a result on the operand's own basis maps the control points affinely)", "MEMO-KEY (no function on the path is memoised by the value of numbers / knot vectors)", "PURE", "FRESH", "GATE(limits ⇒ ValueError)", "DELEGATE", "DEP-MAY per return site", 'POLY-ONLY (polynomial helpers only under weights is None)', 'INTERVAL', 'REFLECTED (x - A, M @ A, x / A are not A - x, A @ M, A / x)', 'ZIP-ALIGN (parallel lists are zipped with the same slice)']
+    chk.decides = ["SAME-INTERVAL (the interval guard of the four operators is an equality of both ends, not a one-sided containment)", "SWAP-SYMMETRIC (the product knot vector treats both operands alike)", "DEHOMOG-PAIR (points divided by a list of weights are stored with exactly those weights)", "RESULT-HOMOG (every curve an operator returns is of degree 0 in the weights of each operand: no numerator / denominator factor missing or doubled)", "AFFINE-MAP (a result on the operand's own basis maps the control points affinely)", "MEMO-KEY (no function on the path is memoised by the value of numbers / knot vectors)", "PURE", "FRESH", "GATE(limits ⇒ ValueError)", "DELEGATE", "DEP-MAY per return site", 'POLY-ONLY (polynomial helpers only under weights is None)', 'INTERVAL', 'REFLECTED (x - A, M @ A, x / A are not A - x, A @ M, A / x)', 'ZIP-ALIGN (parallel lists are zipped with the same slice)']
     chk.not_decided = ["(A op B)(u) = A(u) op B(u) as values", "correctness of the combined knot vector (fails for different degrees with interior knots — consequence of the | defect, DESIGN §5)"]
     for name in ALL:
         q = B + name
@@ -210,6 +210,9 @@ def run(m, chk):
             chk.ob("GATE-LIMITS", f"{q}: curve-curve result `{seg(n.ast, 40)}` only after the limits comparison ⇒ ValueError", ok, loc=r.loc(ctx, n.ast),
                    detail="" if ok else f"{q}: the curve-curve result at {r.loc(ctx, n.ast)} is computed without comparing the two parameter intervals: operands on different intervals do not raise ValueError", func=q, construct="curve-curve result without limits guard")
         chk.floor("GATE-LIMITS", f"curve-curve return sites of {q}", n_cc, 2)
+        from .extra import same_interval
+
+        same_interval(r, chk, ctx, guards, q)
     # derived operators only delegate
     for name in DERIVED:
         q = B + name
